@@ -229,6 +229,30 @@ def run(ctx):
                 what = "action" if "UriAction" in txt or "action" in txt else "text"
                 ctx.violation("C11.display", f"C11.display:{ty}:raw-{what}", w.where(fdx, c["line"]),
                               f"{ty}::fmt writes {what} text into the URI without encoding it (a custom action containing '&', '#', '%' or '=' re-parses differently)")
+    # ---- optional parts are written iff present ---------------------------------------------------------------------------------
+    ctx.rule("C11.optional-parts", "MatrixUri Display writes `action=` exactly when the action is present (no further condition such as non-emptiness): "
+                                   "the parser maps `?action=` to Some(custom \"\"), which differs from None")
+    fdisp = w.fn(f"<{MU}MatrixUri as core::fmt::Display>::fmt")
+    dexw = D.Dex(w.lookup, adt_discr=w.adt_discr, effects=lambda n: n.endswith("write_str"), unroll=0, inline=helper)
+    n_some = n_none = 0
+    badp = []
+    for pth in dexw.paths(fdisp, [D.sym("self"), D.sym("f")]):
+        if pth.kind != "ret":
+            continue
+        conds = [(D.show_atom(a), t) for a, t in pth.conds]
+        if any(a.startswith("Formatter::write_str(") and a.endswith(" is Err") and t for a, t in conds):
+            continue        # the formatter failed: nothing more is written
+        present = [t for a, t in conds if a == "MatrixUri::action(self) is Some"] + [not t for a, t in conds if a == "MatrixUri::action(self) is None"]
+        if not present:
+            continue
+        wrote = any("action=" in D.show(e[1][1]) for e in pth.effects)
+        n_some += present[0]
+        n_none += not present[0]
+        if wrote != present[0]:
+            badp.append((present[0], wrote, [a[:70] for a, t in conds if "action" in a][:3]))
+    ctx.check(n_some >= 1 and n_none >= 1 and not badp, "C11.optional-parts", "C11.optional-parts:action", w.where(fdisp),
+              bad_msg=f"action present/written mismatch on {len(badp)} paths, e.g. present={badp[0][0] if badp else '?'} written={badp[0][1] if badp else '?'} under {badp[0][2] if badp else ''}: "
+                      f"a parsed `?action=` is not written back, so format -> parse changes the value")
     # ---- split before decode -------------------------------------------------------------------------------------------------
     ctx.rule("C11.decode-order", "the URI parsers split on their delimiters ('/', '?', '#', '&', '=') only in text that has not been percent-decoded yet, "
                                  "and decode each part afterwards: Display writes an identifier's own '/', '?', '#' as %XX (C11.encode_set), so decoding "
